@@ -23,6 +23,26 @@ Theorem c02_reject_sound : forall lid las ras b n,
 Proof. exact handle_open_reject_sound. Qed.
 Print Assumptions c02_reject_sound.
 
+(* the structural refusals name a fault the optional-parameters field actually has: subcode 4 only
+   with a parameter of unknown type present, subcode 0 only if the field's length octet disagrees with
+   the body, the field is empty or overruns, or a capabilities parameter is empty or overruns *)
+From Verif Require Import OpenProofs3.
+Theorem c02_structural_fault : forall lid las ras b n,
+  wf_bytes b = true -> 10 <= blen b ->
+  handle_open lid las ras b = OReject n ->
+  (forall o, open_repr o = true -> spec_open_body o <> b) ->
+  (n = mkNotif 2 0 [] /\ fault_inconsistent b = true)
+  \/ (n = mkNotif 2 4 [] /\ fault_unknown_param b = true).
+Proof. exact handle_open_structural. Qed.
+Print Assumptions c02_structural_fault.
+
+Example c02_structural_examples :
+  handle_open 1 65001 65000 [4; 253;232; 0;90; 10;0;0;2; 4; 3;2;0;0] = OReject (mkNotif 2 4 [])
+  /\ fault_unknown_param [4; 253;232; 0;90; 10;0;0;2; 4; 3;2;0;0] = true
+  /\ handle_open 1 65001 65000 [4; 253;232; 0;90; 10;0;0;2; 0] = OReject (mkNotif 2 0 [])
+  /\ fault_inconsistent [4; 253;232; 0;90; 10;0;0;2; 0] = true.
+Proof. vm_compute. repeat split. Qed.
+
 Theorem c02_no_panic : forall lid las ras b,
   wf_bytes b = true -> handle_open lid las ras b <> OPanic.
 Proof. exact handle_open_total. Qed.
